@@ -20,7 +20,9 @@ import (
 func VerifSharedState() string {
 	h := sha256.New()
 	wb := func(name string, b *BigInt) {
-		fmt.Fprintf(h, "%s:%v:heap=%v:%v|", name, b._inline, !b.isInline(), b.String())
+		var tmp big.Int
+		bi := b.inner(&tmp)
+		fmt.Fprintf(h, "%s:%v:heap=%v:%d:%v|", name, b._inline, !b.isInline(), bi.Sign(), bi.Bits())
 	}
 	wd := func(name string, d *Decimal) {
 		fmt.Fprintf(h, "%s:%d:%v:%d:", name, d.Form, d.Negative, d.Exponent)
